@@ -275,7 +275,9 @@ def _flatten_dofs(S: Optional[DofsCollection]) -> Optional[ndarray]:
     if S is None:
         return None
     if isinstance(S, ndarray):
-        return S
+        # remove repeated indices but keep the order
+        _, ix = np.unique(S, return_index=True)
+        return S[np.sort(ix)]
     elif isinstance(S, DofsView):
         return S.flatten()
     elif isinstance(S, dict):
